@@ -161,6 +161,28 @@ def read_logs(logdir, keys):
     return logs, [k for _, k in sorted(realised)]
 
 
+def retry_on_timeout(fn):
+    """A real pool that does not come back (fork under extreme load) is retried ONCE with fresh logs after its workers are terminated;
+    a second timeout is a machinery failure (exit 2).  Never a verdict either way."""
+    import functools
+
+    @functools.wraps(fn)
+    def wrapper(*a, **kw):
+        try:
+            return fn(*a, **kw)
+        except PoolTimeout:
+            import multiprocessing
+            for ch in multiprocessing.active_children():
+                ch.terminate()
+            logdir = kw.get('logdir') or next((x for x in a if isinstance(x, str) and os.path.isdir(x)), None)
+            if logdir:
+                for f in glob.glob(os.path.join(logdir, '*.log')):
+                    os.remove(f)
+            return fn(*a, **kw)
+    return wrapper
+
+
+@retry_on_timeout
 def run_2d(sigs, fs, f_range, kwargs, n_jobs, progress, delays, logdir, via_group=False, return_samples=True):
     """One real compute_features_2d / BycycleGroup.fit call under injected delays. Returns the trace case (without ref)."""
     from bycycle.group import compute_features_2d
@@ -214,6 +236,7 @@ def reference_2d(sigs, fs, f_range, kwargs, return_samples=True):
     return ref
 
 
+@retry_on_timeout
 def run_3d(sigs, fs, f_range, kwargs, axis, n_jobs, delays, logdir, via_group=False, progress=None):
     """One real compute_features_3d / BycycleGroup.fit call on a 3-D array under injected delays."""
     from bycycle.group import compute_features_3d
@@ -284,6 +307,7 @@ def reference_3d(sigs, fs, f_range, kwargs, axis):
     return ref
 
 
+@retry_on_timeout
 def run_fault(sigs, fs, f_range, kwargs, n_jobs, delays, failing, logdir):
     """compute_features_2d where the tasks in `failing` (1-based) raise in their worker. Returns which task's exception reached the parent."""
     from bycycle.group import compute_features_2d
